@@ -241,7 +241,7 @@ CHECKS = {
             "handed over through a blocking wait while its builder - and in one body also the receiver - keeps carving the same chunk, "
             "load+call+freeze+drop against concurrent callers, first-use hashing of shared and of process-wide static strings) are run "
             "under EVERY schedule with <=2 preemptions at any point (quick; <=3 thorough) and with <=3-6 preemptions at conflicting "
-            "operations (partial-order reduction; <=4-12 thorough). Every "
+            "operations (partial-order reduction; <=3-10 thorough, each part capped at 150 000 schedules - a cap that is hit is reported and clears `exhaustive`). Every "
             "execution: per-thread observations == serial reference, no panic, no double free, no ref-count operation on a freed "
             "chunk (freed chunks are poisoned). Plus all interleavings of whole operations (load+call, hash, build/freeze/drop, "
             "publish/take/drop, record/enum, type matching, first use of Globals) on 2-3 threads, one fresh process each, compared "
